@@ -563,8 +563,14 @@ func (hc *grpcHandlerConn) Close(err error) (retErr error) { // nolint:nonamedre
 	// since correctness depends on low-level framing details. Breaking this
 	// logic breaks Envoy's gRPC-Web translation.
 	for key, values := range mergedTrailers {
+		// Header.Add leaves a key with a colon in it alone, so the key has to be
+		// canonical already: metadata may sit under a key the application wrote
+		// into the map by hand, and net/http's HTTP/2 server promotes two
+		// spellings of one name into the same field, the second replacing the
+		// first.
+		key = http.TrailerPrefix + http.CanonicalHeaderKey(key)
 		for _, value := range values {
-			hc.responseWriter.Header().Add(http.TrailerPrefix+key, value)
+			hc.responseWriter.Header().Add(key, value)
 		}
 	}
 	return nil
